@@ -263,8 +263,6 @@ Qed.
 Section Agreement.
   Variables (host : option str) (p m : str).
   Hypothesis Hp : starts_with [SLASH] p = true.
-  (* p is a path_safe: yarl's decoder leaves it unchanged (sampled law, see harness quoting_laws) *)
-  Hypothesis Hdec : path_safe_dec p = p.
 
   Let p_nonempty : p <> [].
   Proof. intros E. rewrite E in Hp. discriminate. Qed.
@@ -312,8 +310,8 @@ Section Agreement.
     ~ In (index_key (RPlain path rt)) (ancestors p) -> leaf_outcome (RPlain path rt) p m = ONo [].
   Proof.
     intros Hb H. simpl. destruct (list_eqb path p) eqn:E; [|reflexivity].
-    apply list_eqb_eq in E. subst path. exfalso. apply H. unfold index_key. simpl.
-    apply key_anc_whole; [assumption|assumption|]. symmetry. exact Hdec.
+    apply list_eqb_eq in E. subst path. exfalso. apply H. cbn [index_key].
+    apply key_anc_plain; assumption.
   Qed.
 
   Lemma leaf_no_match_dyn o pat rt : lead_ok pat ->
@@ -419,18 +417,18 @@ Lemma frule_static host p m q rt :
 Proof. reflexivity. Qed.
 
 Lemma lpo_key_true r p : p <> [] -> In (index_key r) (ancestors p) -> literal_prefix_ok (index_key r) p = true.
-Proof. intros Hp H. apply literal_prefix_ok_iff; auto. apply index_key_of_nonempty. Qed.
+Proof. intros Hp H. apply literal_prefix_ok_iff; auto. apply index_key_nonempty. Qed.
 
 Lemma lpo_key_false r p : p <> [] -> ~ In (index_key r) (ancestors p) -> literal_prefix_ok (index_key r) p = false.
 Proof.
   intros Hp H. destruct (literal_prefix_ok (index_key r) p) eqn:E; [|reflexivity].
-  exfalso. apply H. apply literal_prefix_ok_iff in E; auto. apply index_key_of_nonempty.
+  exfalso. apply H. apply literal_prefix_ok_iff in E; auto. apply index_key_nonempty.
 Qed.
 
-Lemma all_agree host p m : starts_with [SLASH] p = true -> path_safe_dec p = p ->
+Lemma all_agree host p m : starts_with [SLASH] p = true ->
   forall r, res_ok r -> agrees host p m r.
 Proof.
-  intros Hp Hdec.
+  intros Hp.
   assert (Hne : p <> []) by (intros E; rewrite E in Hp; discriminate).
   induction r using resource_ind'; intros Hok; unfold agrees, fix_, frule.
   - inversion Hok; subst. split; [discriminate|]. split; [reflexivity|]. intros _ H.
@@ -456,10 +454,10 @@ Proof.
 Qed.
 
 Theorem index_eq_rule rt host p m :
-  router_ok rt -> starts_with [SLASH] p = true -> path_safe_dec p = p ->
+  router_ok rt -> starts_with [SLASH] p = true ->
   resolve_ix rt host p m = resolve_rule rt host p m.
 Proof.
-  intros [Hix Hrs] Hp Hdec. unfold resolve_ix, resolve_rule.
+  intros [Hix Hrs] Hp. unfold resolve_ix, resolve_rule.
   apply router_agree; [assumption|assumption|].
   rewrite Forall_forall in *. intros r Hr. apply all_agree; auto.
 Qed.
